@@ -120,6 +120,27 @@ def gen_stmt(rng):
         tail = rng.choice(["", "", " order by 1", " limit 2"]) if not grp else rng.choice(["", " order by a.x"])
         return f"select {sel} from a {jt[0]} b on a.x = b.x {jt[1]} c on {cond2}{where}{grp}{tail}", {"join3"}
     if k < 0.9:
+        # join conditions whose equality operands mix both inputs; sort keys / group keys that are not selected
+        mixed = rng.choice(["a.y * b.z", "b.z * a.y", "a.x * b.x", "a.x - b.x", "b.z - a.x", "a.y * b.z + 1"])
+        plain = rng.choice(["a.x", "a.y", "b.x", "b.z", "a.x + a.y", "b.x * 2"])
+        if rng.random() < 0.7:
+            e1, e2 = (plain, mixed) if rng.random() < 0.5 else (mixed, plain)
+        else:
+            e1, e2 = rng.choice(["a.x", "a.x + a.y", "a.x * 2"]), rng.choice(["b.x", "b.x + b.z", "b.x * 2"])
+        jt = rng.choice(["join", "join", "left join", "right join", "full join"])
+        extra = rng.choice(["", "", "", " and a.y < b.z", " and a.y = b.z"])
+        shapes = [
+            (f"select a.x, b.z from a {jt} b on {e1} = {e2}{extra}", {"join-mixed-keys"}),
+            (f"select count(*) from a {jt} b on {e1} = {e2}{extra}", {"join-mixed-keys"}),
+            (f"select x from a order by {rng.choice(['y', 'y desc', 's, y', 'x + y'])} limit {rng.randint(1, 3)}", {"order-unselected"}),
+            (f"select s from a order by {rng.choice(['y', 'x desc', 'y, x'])} limit 2 offset {rng.choice([0, 1, 2, 5000])}", {"order-unselected"}),
+            (f"select a.x from a join b on a.x = b.x order by b.z {rng.choice(['', 'desc'])} limit 2", {"order-unselected"}),
+            (f"select count(*) from a group by {rng.choice(['y', 'x + y', 's'])}", {"group-unselected"}),
+            (f"select x from a where y > 0 order by y limit 1 offset {rng.choice([0, 1, 3000])}", {"order-unselected"}),
+            (f"select x, y from a order by x limit 3 offset {rng.choice([1, 2000, 100000])}", {"big-offset"}),
+        ]
+        return rng.choice(shapes)
+    if k < 0.95:
         return rng.choice([
             ("insert into b select x, y from a where x is not null", {"dml"}), ("delete from a where x in (select x from b)", {"dml"}),
             ("delete from a where y > (select count(*) from b)", {"dml"}), ("insert into a values (1, 2, 'z'), (3, 4, null)", {"dml"}),
